@@ -1,5 +1,6 @@
 import gzip
 import io
+import operator
 import os
 import shutil
 import tempfile
@@ -538,7 +539,7 @@ class AutoSerialize:
         module_name = cast(str, meta["class_module"])
         class_name = cast(str, meta["class_name"])
         module = __import__(module_name, fromlist=[class_name])
-        cls_obj = getattr(module, class_name)
+        cls_obj = operator.attrgetter(class_name)(module)  # qualname may be dotted
         obj = cls_obj.__new__(cls_obj)  # Avoid __init__ side effects
 
         # If attrs package is used, only allow whitelisted attribute names
@@ -707,7 +708,7 @@ class AutoSerialize:
                 submod_name = cast(str, m["class_module"])
                 subcls_name = cast(str, m["class_name"])
                 submod = __import__(submod_name, fromlist=[subcls_name])
-                subcls = getattr(submod, subcls_name)
+                subcls = operator.attrgetter(subcls_name)(submod)
                 if subcls in skip_types:
                     continue
                 val = subcls._recursive_load(subgrp, skip_names, skip_types)
@@ -924,7 +925,7 @@ class AutoSerialize:
                                 cast(str, meta["class_module"]),
                                 fromlist=[cast(str, meta["class_name"])],
                             )
-                            subcls = getattr(submod, cast(str, meta["class_name"]))
+                            subcls = operator.attrgetter(cast(str, meta["class_name"]))(submod)
                             items.append(subcls._recursive_load(subgroup))
                         # Restore nested torch modules
                         elif subgroup.attrs.get("_torch_whole_module"):
@@ -1047,7 +1048,7 @@ class AutoSerialize:
                             cast(str, meta["class_module"]),
                             fromlist=[cast(str, meta["class_name"])],
                         )
-                        subcls = getattr(submod, cast(str, meta["class_name"]))
+                        subcls = operator.attrgetter(cast(str, meta["class_name"]))(submod)
                         items.append(subcls._recursive_load(subgroup))
                     # Restore nested torch modules
                     elif subgroup.attrs.get("_torch_whole_module"):
@@ -1142,7 +1143,7 @@ class AutoSerialize:
                     submod = __import__(
                         cast(str, meta["class_module"]), fromlist=[cast(str, meta["class_name"])]
                     )
-                    subcls = getattr(submod, cast(str, meta["class_name"]))
+                    subcls = operator.attrgetter(cast(str, meta["class_name"]))(submod)
                     result[key] = subcls._recursive_load(subgroup)
                 elif subgroup.attrs.get("_torch_whole_module"):
                     module_arr = cast(zarr.Array, subgroup["module"])
@@ -1421,7 +1422,7 @@ def load(
 
     # Dynamically import target class, then reconstruct from Zarr
     mod = __import__(cast(str, meta["class_module"]), fromlist=[cast(str, meta["class_name"])])
-    cls = getattr(mod, cast(str, meta["class_name"]))
+    cls = operator.attrgetter(cast(str, meta["class_name"]))(mod)
     return cls._recursive_load(root, skip_names=skip_names, skip_types=skip_types)
 
 
